@@ -85,10 +85,11 @@ Lemma starts_ext n l l' : map m_nonce l = map m_nonce l' -> starts n l -> starts
 Proof. destruct l, l'; cbn; intros H Hs; try discriminate; [exact I | inversion H; congruence]. Qed.
 
 Lemma add_spent_get a n p q : add_spent a n p = Ok q ->
-  exists s, aget (p_spent p) a = Some s /\ p_spent q = aset (p_spent p) a (wrap256 (s + n)) /\
+  exists s, aget (p_spent p) a = Some s /\ p_spent q = aset (p_spent p) a (s + n) /\
             p_index q = p_index p /\ p_nonce q = p_nonce p /\ p_bal q = p_bal p.
 Proof.
   unfold add_spent. destruct (aget (p_spent p) a) as [s|] eqn:E; intro H; [|discriminate].
+  destruct (s + n <? two256); [|discriminate].
   inversion H; subst. exists s. repeat split.
 Qed.
 
@@ -135,7 +136,7 @@ Proof.
       + destruct old0; [|discriminate]. destruct (last_opt _); [|discriminate].
         destruct (_ || _); [eapply heap_fix_core; exact E0 | inversion E0; subst; apply same_core_refl]. }
   clear H.
-  pose proof (proj1 HI' from) as Hok. unfold acct_ok in Hok.
+  pose proof (HI' from) as Hok. unfold acct_ok in Hok.
   destruct (nth_error txs off) as [prev|] eqn:En.
   - (* replacement *)
     destruct (validate_replacement_bump c t p prev Hv En) as [_ [_ [_ [_ [_ [_ [_ Hz]]]]]]].
@@ -157,7 +158,6 @@ Proof.
       destruct (t_nonce t <? next) eqn:E9; [discriminate|]. apply N.ltb_ge in E9. unfold off. lia. }
     assert (Hpn : m_nonce prev = t_nonce t).
     { rewrite Hnext. eapply chain_nth; eauto. lia. }
-    assert (Hb : bal_of p from < two256) by apply (proj2 HI').
     unfold spent_of in Hz. fold from in Hz. rewrite Hsp in Hz.
     change (m_cost m) with (t_cost t) in *.
     set (l3 := firstn off (list_set l off m) ++ reev _ (skipn off (list_set l off m)) 0).
@@ -169,7 +169,7 @@ Proof.
       rewrite aset_aset.
       rewrite Es4, Es2, aset_aset, Es0, En2, En1, En0, Eb2, Eb1, Eb0. cbn [p_nonce p_bal set_index].
       repeat split. f_equal. rewrite (map_tx_cost _ _ Htx).
-      rewrite sub256_exact by lia. rewrite wrap256_small; lia.
+      rewrite sub256_exact by lia. lia.
     + intro H0. apply (f_equal (@length _)) in H0. rewrite <- (map_length m_nonce), Hn3, map_length in H0.
       destruct l; [contradiction | discriminate].
     + eapply chain_ext; [symmetry; exact Hn3 | exact Hc].
@@ -178,7 +178,6 @@ Proof.
   - (* extension *)
     destruct (validate_append c t p Hv En) as [Hnext [Hlt [Hsp' Hcap]]].
     fold from next txs in Hnext, Hlt, Hsp', Hcap.
-    assert (Hb : bal_of p from < two256) by apply (proj2 HI').
     inv_bind_as E pa. apply add_spent_get in E0. destruct E0 as [s [Es1 [Es2 [Ei1 [En1 Eb1]]]]].
     inversion E; subst p1 newacc. clear E.
     unfold txs_of at 1 2 3. cbn [p_index add_stored track set_lookup set_stored].
@@ -219,7 +218,7 @@ Proof.
       { intro v. destruct (negb _); cbn [p_spent set_spent set_index]; [apply aset_aset | reflexivity]. }
       rewrite Hsp2.
       split; [reflexivity|]. split; [|split; destruct (negb _); reflexivity].
-      f_equal. rewrite (map_tx_cost _ _ Htx). rewrite wrap256_small; lia.
+      f_equal. rewrite (map_tx_cost _ _ Htx). lia.
     + intro H0. apply (f_equal (@map _ _ m_tx)) in H0. rewrite Htx in H0. unfold l1 in H0.
       rewrite map_app in H0. destruct (map m_tx txs); discriminate.
     + eapply chain_ext; [symmetry; apply map_tx_nonce; exact Htx | apply Hc1].
@@ -296,7 +295,5 @@ Qed.
 End AddProofs.
 
 (* an empty pool satisfies the invariant *)
-Lemma inv_empty p : p_index p = [] -> p_spent p = [] -> (forall a, bal_of p a < two256) -> Inv p.
-Proof.
-  intros Hi Hs Hb. split; [|exact Hb]. intro a. unfold acct_ok. rewrite Hi, Hs. reflexivity.
-Qed.
+Lemma inv_empty p : p_index p = [] -> p_spent p = [] -> Inv p.
+Proof. intros Hi Hs a. unfold acct_ok. rewrite Hi, Hs. reflexivity. Qed.
